@@ -71,6 +71,7 @@ pub fn notify(app: &AppHandle, user: User) {
             ("src/commands.rs".into(), commands.into()),
             ("src/events.rs".into(), events.into()),
         ],
+        links: vec![],
     }
 }
 
@@ -106,6 +107,7 @@ pub fn ping() -> String {
 "#;
     Project {
         files: vec![("src/lib.rs".into(), lib.into())],
+        links: vec![],
     }
 }
 
@@ -133,6 +135,7 @@ pub fn close_account(app: AppHandle, id: i32) -> bool { app.emit("account-closed
             ("src/models/deep/owner.rs".into(), b.into()),
             ("src/api.rs".into(), c.into()),
         ],
+        links: vec![],
     }
 }
 
